@@ -53,6 +53,40 @@ def load_known():
         return json.load(f).get("findings", [])
 
 
+def _raised_inside_package(exc):
+    """True if the innermost frames of the traceback are in the package under test"""
+    import traceback
+    src = os.path.join(os.path.abspath(REPO), "src") + os.sep
+    frames = traceback.extract_tb(exc.__traceback__)
+    for fr in reversed(frames):
+        fn = os.path.abspath(fr.filename)
+        if fn.startswith(src):
+            return True
+        if fn.startswith(VERIF + os.sep):
+            return False
+    return False
+
+
+def _guarded(payload):
+    """Worker wrapper: an exception that escapes from the package under test on an input the check
+    considers valid is a verdict (the property promised a result), not a harness failure."""
+    (fn, task) = payload
+    try:
+        return fn(task)
+    except HarnessError:
+        raise
+    except Exception as e:
+        if not _raised_inside_package(e):
+            raise
+        import traceback
+        tb = "".join(traceback.format_exception(type(e), e, e.__traceback__))[-1500:]
+        acc = Acc()
+        acc.n = 1
+        acc.fail({"unguarded_task": repr(task)[:500], "traceback": tb},
+                 f"the package raised {type(e).__name__}: {e} on an input of the enumeration (task {repr(task)[:120]})")
+        return acc.result()
+
+
 class Ctx:
     def __init__(self, prop, tier, seed, level="exploration"):
         self.prop = prop
@@ -142,10 +176,10 @@ class Ctx:
 
     def _pmap(self, fn, tasks, jobs):
         if jobs == 1 or os.environ.get("VERIF_SERIAL"):
-            return [fn(t) for t in tasks]
+            return [_guarded((fn, t)) for t in tasks]
         mpctx = multiprocessing.get_context("fork")
         with concurrent.futures.ProcessPoolExecutor(jobs, mp_context=mpctx) as ex:
-            futs = [ex.submit(fn, t) for t in tasks]
+            futs = [ex.submit(_guarded, (fn, t)) for t in tasks]
             out = []
             for f in futs:
                 try:
